@@ -44,6 +44,7 @@ type DriverResult struct {
 	AbortMsgs    []string       `json:"abort_msgs,omitempty"`
 	Inconclusive []string       `json:"inconclusive,omitempty"`
 	Failures     []FailureOut   `json:"failures,omitempty"`
+	NFailures    int            `json:"n_failures"`
 	Steps        int            `json:"steps"`
 	Branches     int            `json:"branches"`
 	Asserts      int            `json:"asserts_proved"`
@@ -159,7 +160,11 @@ func (w *Worker) runPath(spec *DriverSpec, prefix []int) (abort *pathAbort) {
 		w.runEntry(spec.RefPkg, spec.Ref, 0, 0)
 	}
 	if spec.Impl != nil {
-		w.runEntry(spec.ImplPkg, spec.Impl, 1, 1)
+		log := 1
+		if spec.Ref == nil {
+			log = 0 // single-world harness: the default log is 0
+		}
+		w.runEntry(spec.ImplPkg, spec.Impl, 1, log)
 	}
 	if spec.Ref != nil && spec.Impl != nil {
 		m.assertSameLogs(0, 1, -1)
@@ -212,6 +217,10 @@ func (w *Worker) runDriver(spec *DriverSpec) (res DriverResult) {
 		}
 		work = append(work, m.pending...)
 		for _, f := range m.failures {
+			res.NFailures++
+			if len(res.Failures) >= 10 {
+				continue
+			}
 			res.Failures = append(res.Failures, FailureOut{f.AssertID, f.Kind, f.Msg, signedModel(f.Model), logsOut(f.Logs)})
 		}
 		res.Inconclusive = append(res.Inconclusive, m.inconclusive...)
